@@ -91,6 +91,13 @@ CHECKS["C04"] = dict(text="For chains of recorded fits along the mixing grid 0, 
     "plane; mixing=1 = PCA (eigenbasis witness verified, scores computed by the specification); mixing=0 with k >= targets = linear regression "
     "(normal equations verified on the logged Yhat); losses monotone along the grid.", ref="6/C04",
     tech="TLC evaluates the mixed objective for TLC-enumerated and verified competitor subspaces on recorded PCovR fits; action-style monotonicity along the mixing grid")
+CHECKS["C05"] = dict(text="On recorded KernelPCovR fits (kernels linear, rbf, poly, cosine, sigmoid with PSD values; center on/off; default, unfitted and fitted "
+    "KernelRidge regressors; mixing and k grids) TLC evaluates in fixed point, from the logged raw kernel blocks: feature-space centring/scaling of "
+    "K_NN, K_VN and K_VV (center=True), the eigen-certificate of the latent coordinates w.r.t. the modified kernel built with the logged dual "
+    "coefficients, and the documented score (witness for (T_N^T T_N)^-1 verified) for held-out sets of size 1, <n, =n and >n, which must not raise; "
+    "route registers: linear kernel = sample-space PCovR with the equivalent ridge, named kernel = precomputed, center=True = explicit "
+    "KernelNormalizer, mixing=1 = kernel PCA up to sign and the normaliser's scale.", ref="6/C05",
+    tech="TLC evaluates the documented loss, centring law and eigen-certificate of the TLA+ specification on recorded fits; route registers")
 NA = {}
 def main():
     props = [json.loads(l)["id"] for l in open(os.path.join(HERE, "properties.jsonl"))]
